@@ -86,6 +86,52 @@ def smiv1_stream(ctx):
             bad = smiv1_failures(vg, pc.plain(a['ast'])[0])
             if bad:
                 res.oracle_failures.append({'key': 'smiv1-syntax', 'what': '; '.join(bad[:3]), 'input': inp})
+    # the other way round: with SMIv1 parsers alive (and used) in the process, the strict dialect still reads their words as names
+    for word in DIALECT_WORDS:
+        for ti in range(len(WORD_TEXTS)):
+            res.case(('dialect-word', word, ti), True)
+            res.count('dialect-words')
+            for what in dialect_word_failures(word, ti):
+                res.oracle_failures.append({'key': 'dialect-word', 'what': what, 'input': {'dialect': 'smiV2', 'word': word, 'word_text': ti,
+                                                                                          'text': WORD_TEXTS[ti] % {'w': word}}})
+
+
+DIALECT_WORDS = ['NetworkAddress', 'MAX']      # words only the SMIv1 dialects reserve
+WORD_TEXTS = [
+    # (text with %(w)s, dialects under which the word is an ordinary identifier there)
+    ('ACME-W-MIB DEFINITIONS ::= BEGIN\nIMPORTS %(w)s FROM RFC1155-SMI OBJECT-TYPE, enterprises FROM SNMPv2-SMI;\n'
+     'acmeAddr OBJECT-TYPE SYNTAX %(w)s MAX-ACCESS read-only STATUS current DESCRIPTION "a" ::= { enterprises 77 }\nEND\n'),
+    ('ACME-W2-MIB DEFINITIONS ::= BEGIN\nIMPORTS enterprises FROM SNMPv2-SMI;\n%(w)s ::= OCTET STRING (SIZE (4))\n'
+     'Other ::= %(w)s\nacmeNode OBJECT IDENTIFIER ::= { enterprises 78 }\nEND\n'),
+]
+
+
+def rename_leaves(x, old, new):
+    if isinstance(x, str):
+        return new if x == old else x
+    if isinstance(x, tuple):
+        return tuple(rename_leaves(v, old, new) for v in x)
+    if isinstance(x, list):
+        return [rename_leaves(v, old, new) for v in x]
+    return x
+
+
+def dialect_word_failures(word, ti):
+    """under the strict SMIv2 dialect a word that only SMIv1 reserves is a name like any other: the tree is the tree of
+    the same text with a neutral name, but for the name"""
+    ex = grammar.build(pc.DIALECTS['smiV2'])
+    neutral = 'AcmeNeutral'
+    if word == 'MAX':
+        return []       # forbidden in the SMIv2 dialect (t_UPPERCASE_IDENTIFIER): C11's business
+    a = pc.impl_parse(ex, WORD_TEXTS[ti] % {'w': word})
+    b = pc.impl_parse(ex, WORD_TEXTS[ti] % {'w': neutral})
+    if 'ast' not in b:
+        return ['the text with a neutral name is rejected: %r' % (b,)]
+    if 'ast' not in a:
+        return ['%s as a plain name under smiV2: %r' % (word, a)]
+    if rename_leaves(pc.plain(b['ast']), neutral, word) != pc.plain(a['ast']):
+        return ['%s as a plain name under smiV2: tree differs from the tree with a neutral name' % word]
+    return []
 
 
 def strip_fillers(ast):
@@ -273,6 +319,11 @@ def literal_context(text, pos):
 def replay(payload):
     inp = payload['input']
     ex = grammar.build(pc.DIALECTS[inp['dialect']])
+    if 'word_text' in inp:
+        for dialect in pc.DIALECTS:
+            grammar.build(pc.DIALECTS[dialect])
+        bad = dialect_word_failures(inp['word'], inp['word_text'])
+        return {'fails': bool(bad), 'what': bad}
     if 'v1_seed' in inp:
         import random
         from gen import v1gen
